@@ -11,8 +11,8 @@
 (*     pkg.M.cyc -> pkg.cyc); M defines class B {bm}, class K[(B)]         *)
 (*     {km, _kp}, function f, attribute x, private attribute _p;           *)
 (*   * every action is one edit of the catalogue applied to `new`          *)
-(*     (compatible: AddPublic, AddOptKw, AddBase; incompatible: Remove,    *)
-(*     ChangeKind, RemoveBase, ChangeValue - at public or private          *)
+(*     (compatible: AddPublic, AddOptKw, AddReturn, AddBase; incompatible: *)
+(*     Remove, ChangeKind, RemoveBase, ChangeValue - at public or private  *)
 (*     locations), appended to `log`, at most MaxEdits of them;            *)
 (*   * Report(old, new) is a transcription of _griffe.diff:                *)
 (*     find_breaking_changes -> _member_incompatibilities ->               *)
@@ -79,6 +79,7 @@ BasePackage(mallc, reexp, withRall, ext, cyc, kbase) ==
                                 [] d \in {"km", "kp", "x", "p"} -> "attribute" [] OTHER -> "absent"],
    val |-> [d \in DefIds |-> "v1"],                 \* value of attributes
    opt |-> {},                                     \* functions that have the extra optional keyword parameter
+   ret |-> {},                                     \* functions that have a return annotation (-> int)
    kbase |-> kbase,                                \* class K(B)
    imp |-> reexp,                                  \* names re-exported by pkg/__init__ from M
    ext |-> ext, cyc |-> cyc,                       \* dangling / cyclic re-export present
@@ -172,8 +173,11 @@ ClassIncompat(vo, vn, ho, hn, acc) ==
   IN MemberIncompat(vo, vn, ho, hn, acc1)
 \* _function_incompatibilities restricted to the one parameter the catalogue touches (`*, opt=None`):
 \* removed unless swallowed / added as required never fire for an added optional keyword-only parameter
+\* and _returns_are_compatible: old None -> compatible; new None -> incompatible; otherwise compatible
 FunctionIncompat(vo, vn, ho, hn, acc) ==
-  IF ho.id \in vo.opt /\ hn.id \notin vn.opt THEN Yield(acc, "PARAMETER_REMOVED", hn) ELSE acc
+  LET acc1 == IF ho.id \in vo.opt /\ hn.id \notin vn.opt THEN Yield(acc, "PARAMETER_REMOVED", hn) ELSE acc
+      returnsCompatible == IF ho.id \notin vo.ret THEN TRUE ELSE IF hn.id \notin vn.ret THEN FALSE ELSE TRUE
+  IN IF ~returnsCompatible THEN Yield(acc1, "RETURN_CHANGED_TYPE", hn) ELSE acc1
 \* _attribute_incompatibilities
 AttributeIncompat(vo, vn, ho, hn, acc) ==
   IF vo.val[ho.id] # vn.val[hn.id] THEN Yield(acc, "ATTRIBUTE_CHANGED_VALUE", hn) ELSE acc
@@ -246,7 +250,7 @@ Logged(op, d, v2) == /\ Len(log) < MaxEdits
                      /\ report' = Report(old, v2)
                      /\ UNCHANGED <<mpriv, old, pub, canon>>
 Drop(v, ds) == [v EXCEPT !.kind = [d \in DefIds |-> IF d \in ds THEN "absent" ELSE @[d]],
-                         !.imp = @ \ ds, !.rall = @ \ ds, !.mall = @ \ ds, !.opt = @ \ ds]
+                         !.imp = @ \ ds, !.rall = @ \ ds, !.mall = @ \ ds, !.opt = @ \ ds, !.ret = @ \ ds]
 \* the edit leaves no `__all__ = []` behind (an empty list is "no __all__" for is_public: C01's finding)
 AllsNonEmpty(v) == (v.hasRall => v.rall # {}) /\ (v.hasMall => v.mall # {})
 
@@ -262,7 +266,7 @@ ChangeKind(d) ==
   /\ d \in {"K", "f", "x", "bm", "km"}
   /\ Present(new, d) /\ new.kind[d] = old.kind[d]
   /\ LET v1 == Drop(new, Descendants(d))
-         v2 == [v1 EXCEPT !.kind[d] = NewKind(d), !.opt = @ \ {d}]
+         v2 == [v1 EXCEPT !.kind[d] = NewKind(d), !.opt = @ \ {d}, !.ret = @ \ {d}]
      IN Logged("ChangeKind", d, v2)
 ChangeValue(d) ==
   /\ d \in {"x", "p", "km", "kp"}
@@ -284,6 +288,10 @@ AddOptKw(d) ==
   /\ d \in {"f", "bm"}
   /\ new.kind[d] = "function" /\ d \notin new.opt
   /\ Logged("AddOptKw", d, [new EXCEPT !.opt = @ \cup {d}])
+AddReturn(d) ==                                   \* `def f(a): ...` -> `def f(a) -> int: ...`
+  /\ d \in {"f", "bm"}
+  /\ new.kind[d] = "function" /\ old.kind[d] = "function" /\ d \notin new.ret
+  /\ Logged("AddReturn", d, [new EXCEPT !.ret = @ \cup {d}])
 
 \* ---- behaviours --------------------------------------------------------------------------------------
 ReexpChoices == IF BaseFamily = "small" THEN {{"K", "f", "x"}} ELSE {{}, {"f"}, {"K", "x"}, {"K", "f", "x"}}
@@ -299,7 +307,7 @@ Init ==
   /\ pub = PubPaths(old)
   /\ canon = CanonPaths(old)
 
-Next == \/ \E d \in DefIds : Remove(d) \/ ChangeKind(d) \/ ChangeValue(d) \/ AddPublic(d) \/ AddOptKw(d)
+Next == \/ \E d \in DefIds : Remove(d) \/ ChangeKind(d) \/ ChangeValue(d) \/ AddPublic(d) \/ AddOptKw(d) \/ AddReturn(d)
         \/ RemoveBase \/ AddBase
 Spec == Init /\ [][Next]_vars
 
